@@ -108,11 +108,8 @@ def run(tier, seed):
         run.cov["evaluations"] += 1
         run.tag("read-opts:" + ("+".join(sorted(ro)) or "none"))
         case = {"schema": s, "value": to_wire(data[di]), "ropts": ro, "bytes": hx}
-        if not same(io_, mo) or ("ok" in io_ and canon(io_["ok"]) != canon(mo["ok"])):
-            case["impl"], case["model"] = io_, mo
-            run.fail(case, "correspondence: reading with %s differs from the model" % ro, kind="correspondence")
-            continue
-        # closure: (name, value) pairs read with named-type reporting, written back, give the identical bytes
+        # closure (property oracle, evaluated first): (name, value) pairs read with named-type reporting,
+        # written back, give the identical bytes
         if ro == {"rnt": True} and "ok" in io_ and not opts.get("dtn") and not has_unnamed_hint(data[di]):
             back = from_wire(io_["ok"])
             again = impl.enc(s, back, opts)
@@ -120,6 +117,11 @@ def run(tier, seed):
                 case["read"], case["rewritten"] = io_["ok"], again
                 run.fail(case, "value read with return_named_type does not reproduce the identical bytes when written back",
                          kind="oracle")
+                continue
+        if not same(io_, mo) or ("ok" in io_ and canon(io_["ok"]) != canon(mo["ok"])):
+            case["impl"], case["model"] = io_, mo
+            run.fail(case, "correspondence: reading with %s differs from the model" % ro, kind="correspondence")
+            continue
     # ---- unknown hint names are errors
     for (s, data, opts) in cases[:scale(tier, 200)]:
         if isinstance(s, list) and not opts.get("dtn"):
